@@ -182,7 +182,31 @@ func runC09(r *Report) {
 			if !ok || (bo.Op != token.NEQ && bo.Op != token.EQL) {
 				continue
 			}
-			fromCk := func(v ssa.Value) bool { return errSourceAny(v) == "sstables.checksumValue" }
+			fromCk := func(v ssa.Value) bool {
+				if errSourceAny(v) == "sstables.checksumValue" {
+					return true
+				}
+				// computed in place: the zero-mapped CRC-64 of a digest
+				if sm, val, ok := zeroMappedSum(v); ok {
+					if c, isC := sm.(*ssa.Call); isC && c.Call.IsInvoke() && c.Call.Method.Name() == "Sum64" {
+						// the digest was fed exactly the value whose emptiness decides the zero mapping
+						fed, other := 0, 0
+						if refs := c.Call.Value.Referrers(); refs != nil {
+							for _, rf := range *refs {
+								if w, isW := rf.(*ssa.Call); isW && w.Call.IsInvoke() && w.Call.Value == c.Call.Value && w.Call.Method.Name() == "Write" {
+									if len(w.Call.Args) == 1 && w.Call.Args[0] == val {
+										fed++
+									} else {
+										other++
+									}
+								}
+							}
+						}
+						return fed == 1 && other == 0
+					}
+				}
+				return false
+			}
 			isExp := func(v ssa.Value) bool {
 				if f, ok := v.(*ssa.Field); ok {
 					_, n, _, ok2 := fieldAddrName(f)
@@ -408,6 +432,20 @@ func ruleCrcAgree(r *Report) {
 				}
 			}
 		}
+		// the inline form of the helper
+		eachInstr(fn, func(s Site) {
+			ph, isPhi := s.Instr.(*ssa.Phi)
+			if !isPhi {
+				return
+			}
+			if sm, val, ok := zeroMappedSum(ph); ok {
+				if c, isC := sm.(*ssa.Call); isC && c.Call.IsInvoke() && c.Call.Method.Name() == "Sum64" {
+					if po := paramOrigin(val); po != nil && (refName(po) == "value" || len(fn.Params) == 1) {
+						okZ = true
+					}
+				}
+			}
+		})
 		if okZ {
 			r.OK(rule, key, fn.Pos(), "the sum passes through the shared zero-avoiding helper with the value it was computed from")
 		} else {
@@ -438,11 +476,29 @@ func ruleCrcAgree(r *Report) {
 			r.Saw(fn)
 			through := len(*c.Referrers()) > 0
 			for _, rf := range *c.Referrers() {
+				// the inline form: the sum is only compared with 0 and merged with the replacement constant
+				if bo, isB := rf.(*ssa.BinOp); isB && (bo.Op == token.EQL || bo.Op == token.NEQ) {
+					continue
+				}
+				if ph, isPhi := rf.(*ssa.Phi); isPhi {
+					if sm, _, ok := zeroMappedSum(ph); ok && sm == ssa.Value(c) {
+						continue
+					}
+				}
 				cc, isC := rf.(*ssa.Call)
 				if !isC || cc.Call.StaticCallee() == nil || FuncKey(cc.Call.StaticCallee()) != "sstables.nonZeroChecksum" || len(cc.Call.Args) == 0 || cc.Call.Args[0] != ssa.Value(c) {
 					through = false
 				}
 			}
+			// comparisons alone are not a use of the sum as a checksum
+			mapped := false
+			for _, rf := range *c.Referrers() {
+				switch rf.(type) {
+				case *ssa.Phi, *ssa.Call:
+					mapped = true
+				}
+			}
+			through = through && mapped
 			if through {
 				r.OK(rule, key, s.Pos(), "the CRC-64 goes through nonZeroChecksum")
 			} else {
@@ -463,6 +519,29 @@ func ruleCrcAgree(r *Report) {
 			r.OK(rule, key, hz.Pos(), "zero sum of a non-empty value is replaced by a non-zero constant")
 		} else {
 			r.Bad(rule, key, hz.Pos(), "the helper never replaces a zero sum")
+		}
+	}
+	// … and every other CRC-64 table of the package (a checksum computed in place instead of through checksumValue) is
+	// the writer's
+	if want, ok := tables["sstables.SSTableStreamWriter.WriteNext"]; ok {
+		for _, fn := range r.P.FuncsOfPkg("sstables") {
+			fk := FuncKey(fn)
+			if fk == "sstables.SSTableStreamWriter.WriteNext" || fk == "sstables.checksumValue" {
+				continue
+			}
+			for _, mk := range CallsIn(fn, Keys("hash/crc64.MakeTable")) {
+				key := uniqKey(r, rule+"/"+fk+"/same-polynomial")
+				r.Saw(fn)
+				c, isC := mk.Call().Common().Args[0].(*ssa.Const)
+				switch {
+				case !isC:
+					r.Unk(rule, key, mk.Pos(), "crc64 table polynomial is not a constant")
+				case c.Value.ExactString() != want:
+					r.Bad(rule, key, mk.Pos(), "a CRC-64 is computed here with another polynomial than the one the table writer stores: every value fails its verification at this site (or, compared with nothing, damage goes unnoticed)")
+				default:
+					r.OK(rule, key, mk.Pos(), "the writer's polynomial")
+				}
+			}
 		}
 	}
 	if len(tables) == 2 && tables["sstables.SSTableStreamWriter.WriteNext"] != tables["sstables.checksumValue"] {
